@@ -16,7 +16,7 @@ LEVEL_TEXT = (
     "line/column (LF, CR LF, CR only), never raises, every token the lexer returns carries the true line "
     "and column of its start (through every lexer branch incl. block strings), rendering a location from the "
     "same source never indexes out of range and excerpts the named line, location_offset arithmetic. The model is tied to source.py/print_location.py by "
-    "an exhaustive correspondence run (all strings <= 4 quick / <= 6 thorough over the property's 11-symbol "
+    "an exhaustive correspondence run (all strings <= 4 quick / <= 5 thorough plus 400 k random strings of length 6..9 over the property's 11-symbol "
     "alphabet x all offsets); token line/column and syntax-error locations are checked on the implementation "
     "against the Lean spec (oracle) on the same space."
 )
@@ -265,12 +265,16 @@ CORPUS = [
 
 def explore(ctx) -> Report:
     fw.use_repo()
-    n = 4 if ctx.tier == "quick" else 6
+    # thorough: exhaustive to length 5 (177 k strings x all offsets) + 400 k random strings of length 6..9;
+    # the exhaustive length-6 space (1.8 M strings) took 26 min on a loaded machine
+    n = 4 if ctx.tier == "quick" else 5
     if ctx.escalate and ctx.tier == "quick":
         n = 5
     bodies = list(CORPUS) + list(strings_upto(n))
     rng = ctx.sub_rng("c10")
     bodies += _gen_random(rng, 3000 if ctx.tier == "quick" else 60000, 14)
+    if ctx.tier != "quick":
+        bodies += ["".join(rng.choices(ALPHABET, k=rng.randint(6, 9))) for _ in range(400000)]
     bodies += _gen_tokens(rng, 4000 if ctx.tier == "quick" else 80000)
     # long lines (minified-document branch of print_source_location)
     bodies += ["a" * rng.randint(100, 200) + rng.choice(["\n", "\r\n", "\x0c"]) + "?" for _ in range(10)]
